@@ -370,6 +370,16 @@ func runC19(p params) error {
 			c19AddCase(out, "k2-late-hello-verify", in)
 			in.Faults = []c19Fault{{Dir: 1, Idx: 0, Kind: "dup"}, {Dir: 1, Idx: 1, Kind: "drop"}}
 			c19AddCase(out, "k2-dup-hello-verify", in)
+			// the client's very first (cookie-less) hello is late and arrives while the server awaits the client's
+			// key-exchange flight (whose first transmission is lost) / while it awaits the cookie-bearing hello
+			if !in.Resume {
+				in.Faults = []c19Fault{{Dir: 0, Idx: 0, Kind: "delay", Ms: 150}, {Dir: 0, Idx: 3, Kind: "drop"}}
+				c19AddCase(out, "k2-late-first-hello", in)
+				in.Faults = []c19Fault{{Dir: 0, Idx: 0, Kind: "delay", Ms: 150}, {Dir: 0, Idx: 2, Kind: "drop"}}
+				c19AddCase(out, "k2-late-first-hello", in)
+				in.Faults = []c19Fault{{Dir: 0, Idx: 0, Kind: "delay", Ms: 450}, {Dir: 0, Idx: 3, Kind: "drop"}, {Dir: 0, Idx: 4, Kind: "drop"}}
+				c19AddCase(out, "k3-late-first-hello", in)
+			}
 			// the same flight lost again and again: the timeout doubles up to the maximum and stays there.
 			// More faults than the application's patience covers: only the trace is compared ("long-").
 			var fs []c19Fault
